@@ -1,6 +1,7 @@
 import WR.Base.Sexp
 import WR.C14.Proto
 import WR.C14.Spec
+import WR.C14.ProtoDoc
 open WR WR.Sexp WR.C14
 
 namespace Driver.C14
@@ -45,15 +46,32 @@ def canvasReport (evs : List Ev) (c : Nat) : List Sexp :=
     | some i => [.list [.atom "unbalanced-stack", ofNat (mapIdx ixs n i), ofNat c]]
   pv ++ cv ++ sv
 
-def protoAnswer (n : Nat) (evs : List Ev) : Sexp :=
-  let acc := accepts n evs
+def getDocEv : Sexp → Option DocEv
+  | .atom "p" => some .addPage
+  | .atom "c" => some .pageCall
+  | .atom "a" => some .createAnchors
+  | .atom "t" => some .setAttachments
+  | .atom "e" => some .embedFile
+  | .atom "b" => some .setBookmarks
+  | .list [.atom "m", k] => do some (.metadata (← k.asNat?))
+  | _ => none
+
+def sealReport (evs : List Ev) (g : Nat) : List Sexp :=
+  match sealViol g 0 0 false 0 evs with
+  | none => []
+  | some i => [.list [.atom "group-not-sealed", ofNat i, ofNat g]]
+
+def protoAnswer (n : Nat) (evs : List Ev) (doc : List DocEv) : Sexp :=
+  let acc := accepts n evs && sealedOk evs && docOk doc
   let pg : List Sexp := if pagesOk n evs then [] else
     [.list [.atom "page-count", ofNat (evs.filter Ev.isAddPage).length, ofNat n]]
   let gl : List Sexp := match globalViol [] [] 0 evs with
     | none => []
     | some i => [.list [.atom "global", ofNat i]]
   let cs := (created evs).flatMap (canvasReport evs)
-  .list [.atom (if acc then "accept" else "reject"), .list (pg ++ gl ++ cs)]
+  let sl := if sealedOk evs then [] else (groups evs).flatMap (sealReport evs)
+  let dc : List Sexp := if docOk doc then [] else [.list [.atom "document-protocol", ofNat evs.length]]
+  .list [.atom (if acc then "accept" else "reject"), .list (pg ++ gl ++ cs ++ sl ++ dc)]
 
 def getPairs : Sexp → Option (List (String × Nat))
   | .list xs => xs.mapM fun
@@ -82,10 +100,11 @@ def errName : BkErr → String
 
 def handle (req : Sexp) : Sexp :=
   let r : Option Sexp := match req with
-    | .list [.atom "proto", n, .list evs] => do
+    | .list [.atom "proto", n, .list evs, .list doc] => do
       let n ← n.asNat?
       let evs ← evs.mapM getEv
-      some (protoAnswer n evs)
+      let doc ← doc.mapM getDocEv
+      some (protoAnswer n evs doc)
     -- model of gatherLinksAndBookmarks' anchor rule + resolveLinks from per-page candidates
     | .list [.atom "links", .list cands, .list links] => do
       let cands ← cands.mapM getPairs
